@@ -111,7 +111,7 @@ def programs(draw):
     # one case in five first runs ANOTHER program with the same loom/pid/tid into the
     # same trace directory (a re-run): the stream must still hold only this run's events
     prev = draw(st.lists(one_op(), min_size=0, max_size=10)) if draw(st.integers(0, 4)) == 0 else None
-    return {"ops": ops, "tmpdir": draw(st.integers(0, 4)) == 0,
+    return {"ops": ops, "tmpdir": draw(st.sampled_from([False, False, False, False, False, True, True, "same", "alias"])),
             "short": draw(st.sampled_from([None, None, None, "half", "one"])), "prev": prev}
 
 
@@ -160,7 +160,7 @@ def run(case, ctx):
         refused = sum(1 for v in log.values() if v[0] == "refused")
         crossed = len(data) > MAX or any(e.mcv == "OF[" for e in dec[:-2])
         sizes = {len(e.payload) for e in dec if not e.jumbo}
-        cls = ["tmpdir" if case.get("tmpdir") else "direct"]
+        cls = [("tmpdir" if case.get("tmpdir") is True else "tmpdir-is-%s-as-tracedir" % case.get("tmpdir")) if case.get("tmpdir") else "direct"]
         if case.get("prev") is not None:
             cls.append("rerun-into-existing-trace")
         if case.get("short"):
